@@ -1070,9 +1070,15 @@ namespace avel {
         auto exponent_field = _mm256_and_si256(_mm256_set1_epi64x(double_exponent_mask_bits), bits);
         vec4x64i arg_exponent = bit_shift_right<52>(vec4x64i{exponent_field});
 
+        // Every exponent beyond this magnitude saturates (zero or infinity); clamping first keeps the
+        // subtractions below from wrapping around for exponents near the ends of the integer range
+        exp = clamp(exp, vec4x64i{-2200}, vec4x64i{+2200});
+
         // Perform two multiplications such that they should never lead to lossy rounding
-        vec4x64i lower_bound0{vec4x64i{1} - arg_exponent};
-        vec4x64i upper_bound0{vec4x64i{1046} - arg_exponent};
+        // Keep both halves of the exact scaling step within the exponent range of a normal multiplier:
+        // the lower bound is one above the smallest normal exponent, and never below -2044 (infinities and NaNs)
+        vec4x64i lower_bound0 = max(vec4x64i{2} - arg_exponent, vec4x64i{-2044});
+        vec4x64i upper_bound0{vec4x64i{2046} - arg_exponent};
 
         vec4x64i extracted_magnitude = clamp(exp, lower_bound0, upper_bound0);
         exp -= extracted_magnitude;
